@@ -23,7 +23,7 @@ DEF_CLAUSES = {
     "def.second_checker": {"C14"},
     "def.wrapped_chain": {"C14"},
     "def.registered_count": {"C18"},
-    "def.verdict_ne_lists": {"C18", "C04"},
+    "def.verdict_ne_lists": {"C18", "C04", "C01", "C02"},
     "def.view": {"C18"},
     "proto.no_expected_step": set(),
 }
